@@ -290,11 +290,17 @@ func (s *Stream) startConsume(consumer Consumer, packetType PacketType, extra st
 	}
 
 	cs.l.Lock()
-	if useGopCache {
-		c.sendGop(cache) // 新消费者，先发送gop缓存
+	if atomic.LoadInt32(&s.status) != StreamOK {
+		// the stream is already closed (its close sweep may be over):
+		// release the consumer at once instead of registering it
+		c.Close()
+	} else {
+		if useGopCache {
+			c.sendGop(cache) // 新消费者，先发送gop缓存
+		}
+		verifhook.Point("stream.join.snapshotted", uint32(c.cid))
+		cs.Add(c)
 	}
-	verifhook.Point("stream.join.snapshotted", uint32(c.cid))
-	cs.Add(c)
 	cs.l.Unlock()
 	verifhook.Point("stream.join.added", uint32(c.cid))
 
